@@ -89,6 +89,9 @@ class Prop(core.Prop):
                 yield dict(group, miss=0, mask=mk, comments=cs, indep_units=True, source='built-depfirst')
         for extra in (82, 83, 84, 120):
             yield dict(group, miss=0, mask='one', comments=0, indep_units=True, source='built', extra=extra)
+        if group['nrec'] >= 2:
+            for mi in range(len(MISS)):
+                yield dict(group, miss=mi, mask='one', comments=0, indep_units=True, source='built', tmask=True)
         for mk in ('none', 'one', 'column'):
             for mi in (0, 6):
                 yield dict(group, miss=mi, mask=mk, comments=0, indep_units=True, source='built-values')
@@ -194,6 +197,7 @@ class Prop(core.Prop):
             # 10 Hz samples late in the day (seconds of day): fractional, each within 1e-5 (relative) of a whole number
             time = 54000.1 + 0.1 * np.arange(nrec, dtype='d')
         self._time = time
+        self._tmask = None
         if case['source'] == 'text':
             rows = []
             for i in range(nrec):
@@ -218,6 +222,12 @@ class Prop(core.Prop):
             setattr(f, 'COMMENT_%03d' % i, 'note number %d' % i)
 
         def indep():
+            if case.get('tmask'):
+                # a record whose time itself is flagged missing
+                self._tmask = np.arange(nrec) == 1
+                f.createVariable('Start_UTC', 'd', ('POINTS',), missing_value=miss, units='seconds',
+                                 values=np.ma.MaskedArray(np.asarray(time, 'd'), mask=self._tmask.copy()))
+                return
             tv = f.createVariable('Start_UTC', 'i' if case.get('time_int') else 'd', ('POINTS',), missing_value=miss,
                                   units='seconds' if case['indep_units'] else 'Start_UTC')
             tv[:] = time
@@ -253,6 +263,12 @@ class Prop(core.Prop):
             return vs
         tgot = np.ma.filled(np.ma.asarray(g.variables['Start_UTC'][...], 'd'), np.nan)
         tbad = [(a, b) for a, b in zip(tgot, self._time) if not sig7(a, b)]
+        if self._tmask is not None:
+            tm = np.ma.getmaskarray(np.ma.asarray(g.variables['Start_UTC'][...]))
+            tbad = [(a, b) for a, b, mm in zip(tgot, self._time, self._tmask) if not mm and not sig7(a, b)]
+            if tm.shape != self._tmask.shape or not np.array_equal(tm, self._tmask):
+                vs.append(viol('mask', sig, '%s: Start_UTC mask %s expected %s' % (
+                    tag, tm.astype(int).tolist(), self._tmask.astype(int).tolist()), **scope))
         if tgot.shape != self._time.shape or tbad:
             vs.append(viol('independent-variable', sig, '%s: Start_UTC %s expected %s' % (
                 tag, tgot.tolist()[:3], self._time.tolist()[:3]), **scope))
